@@ -13,7 +13,9 @@
    universe and of perturbed n = 4 trees.                                                     *)
 EXTENDS TxStructure, Json, SequencesExt
 CONSTANTS NS,        \* set of n enumerated completely
-          Extra,     \* child entries allowed beyond n
+          Extra,     \* child entries allowed beyond n (n <= 2)
+          Extra3,    \* the same for n = 3 (quick tier: 0 = at most 3 entries, thorough: 2)
+          Yields3,   \* "all": every 0..2 combination on the edges of valid n = 3 trees; "edge": one edge at a time
           Sample3,   \* number of sampled n = 3 structures
           Sample4,   \* number of sampled n = 4 structures
           Seed
@@ -54,18 +56,24 @@ AllYieldsOf(S) == UNION {{[x EXCEPT !.ytp = f, !.ytc = YtcFrom(x, g)] : f \in [1
 \* The universe is cut into chunks <<n, pattern, maxDepth, variant, first entry type>> so that the
 \* TLC workers can build and check the chunks in parallel (a chunk is a state of stage 0, its
 \* structures are the successors).
-\* (for n = 3 the subintent-root variant is enumerated for maxDepth 1 and 3 only and the mixed-yield
-\* variant not for maxDepth 0, to keep the thorough run inside its time budget)
-VariantsAt(n, D) == IF n < 3 THEN 1..3 ELSE {1} \cup (IF D > 0 THEN {2} ELSE {}) \cup (IF D \in {1, 3} THEN {3} ELSE {})
+\* (for n = 3 with the large universe the subintent-root variant is enumerated for maxDepth 1 and 3 only and the
+\* mixed-yield variant not for maxDepth 0, to keep the thorough run inside its time budget)
+VariantsAt(n, D) == IF n < 3 \/ Extra3 < 2 THEN 1..3 ELSE {1} \cup (IF D > 0 THEN {2} ELSE {}) \cup (IF D \in {1, 3} THEN {3} ELSE {})
 Chunks(n) == UNION {UNION {{<<n, p, D, vi, t0>> : vi \in VariantsAt(n, D), t0 \in 0..((n + 1) * (NumSyms(p) + 1))} : D \in 0..3} : p \in Patterns(n)}
+ExtraFor(n) == IF n = 3 THEN Extra3 ELSE Extra
+\* yield counts next to the matching ones on ONE edge of a structurally valid case (the others stay 1 / 1)
+EdgeYieldsOf(S) == UNION {{[x EXCEPT !.ytp = [j \in 1..x.n |-> IF j = e THEN yy[1] ELSE 1],
+                                     !.ytc = YtcFrom(x, [j \in 1..x.n |-> IF j = e THEN yy[2] ELSE 1])] :
+                              e \in 1..x.n, yy \in {<<1, 1>>, <<0, 1>>, <<1, 0>>, <<2, 1>>, <<1, 2>>, <<2, 2>>, <<0, 0>>, <<0, 2>>, <<2, 0>>}} : x \in S}
 FullChunk(ck) ==
   LET n == ck[1]  p == ck[2]  D == ck[3]  vi == ck[4]  t0 == ck[5]
       m == NumSyms(p)
       hi == (n + 1) * (m + 1)
-      mss == IF t0 = 0 THEN {<<>>} ELSE UNION {{<<t0>> \o r : r \in MS(kk - 1, t0, hi)} : kk \in 1..(n + Extra)}
+      mss == IF t0 = 0 THEN {<<>>} ELSE UNION {{<<t0>> \o r : r \in MS(kk - 1, t0, hi)} : kk \in 1..(n + ExtraFor(n))}
       v == Variant(vi, n, m)
       base == {Mk(n, p, ChSeqs(ms, n, m), D, v[1], v[2]) : ms \in mss}
-  IN base \cup (IF vi = 1 THEN AllYieldsOf({y \in base : StructOK(y)}) ELSE {})
+  IN base \cup (IF vi = 1 THEN (IF n = 3 /\ Yields3 = "edge" THEN EdgeYieldsOf({y \in base : StructOK(y)})
+                                ELSE AllYieldsOf({y \in base : StructOK(y)})) ELSE {})
 
 ---------------------------------------------------------------------------
 \* seeded samples
@@ -75,7 +83,7 @@ RndSeq(x, len) == IF len = 0 THEN <<>> ELSE LET y == Rnd(x) IN <<y \div 7>> \o R
 Stream(idx, len) == RndSeq((Seed + idx * 7919) % 65521, len)
 
 PatSeq3 == SetToSeq(Patterns(3))
-MSq3 == [mm \in 1..3 |-> SetToSeq(Multisets(3, mm, 3 + Extra))]
+MSq3 == [mm \in 1..3 |-> SetToSeq(Multisets(3, mm, 3 + Extra))]   \* the sample always draws from the large universe
 S3(idx) == LET r == Stream(idx, 8)
                p == PatSeq3[(r[1] % Len(PatSeq3)) + 1]
                m == NumSyms(p)
